@@ -108,22 +108,13 @@ def scenarios(mod, rng):
 def classify(mod, ops, recs, out, ref):
     """Key of the finding a minimal failing history exhibits.  `recs` are the
     records of ops[:-1]; ops[-1] is the failing call.  All defects found while
-    this check was built are fixed in /repo (cbc57b0 .. 2e99c37, 5c177c1); one
-    is left."""
-    last = ops[-1][1]
-    if mod == 'linbasex' and out[0] == 'exc':
-        prev = [r['op'][1] for r in recs if r['op'][0] == 'call']
-        if any(p['n'] != last['n'] and p['orders'] == last['orders'] and p['angles'] == last['angles'] for p in prev):
-            return 'C07:linbasex:memory-test-ignores-image-size'
+    this check was built are fixed in /repo (cbc57b0 .. 2e99c37, 5c177c1,
+    8cabaad)."""
     kinds = '/'.join(o[0] for o in ops)
     return 'C07:%s:unclassified:%s' % (mod, kinds)
 
 
-WHAT = {
-    'C07:linbasex:memory-test-ignores-image-size':
-        'linbasex: the memory-cache test compares _basis.shape with (2*cols, cols+1) but not the image size; a basis cached for '
-        'another image size with the same orders/angles (e.g. 6 angles, 5 orders: 3x3 then 9x9 image) passes it and the call raises LinAlgError',
-}
+WHAT = {}
 
 
 # --------------------------------------------------------------------------
@@ -361,7 +352,7 @@ def run(ctx):
         'correspondence run of this check (observable state + outcome class + agreement with fresh result after every operation)',
         'history independence is proved for all five modules for ALL histories satisfying the environment assumptions (writable '
         'directories, good files on disk are what a save writes, Distributions quantities are functions of parameters and weights '
-        'content); linbasex keeps one exclusion (memory test ignores the image size: remaining finding)',
+        'content)',
         '"same result" is measured with max-norm relative tolerance 1e-7 on the implementation',
         'entries of a basis depend only on what its symbolic tag records (basex: sigma,i,k; daun degree<=2: degree,i,j; daun '
         'degree 3: also n; dasch: method,i,j; rbasex: n,R,r): read from the generating code, validated by the search, and for '
